@@ -1165,6 +1165,7 @@ func runC19(ctx *Ctx) {
 			depth = 4
 		}
 		v := c19GenVal(ctx, depth)
+		d19ProbeOracle(ctx, v)
 		wlog := c19WalkCase(ctx, v)
 		c19TransformCase(ctx, v, wlog)
 		c19MarksCase(ctx, v)
